@@ -205,6 +205,11 @@ class Resolver:
             if ch is not None and ch[0] not in _local_names(f):
                 return [("ext", ".".join(ch))]
             return []
+        if (isinstance(fn, ast.Subscript) and isinstance(fn.value, ast.Call) and isinstance(fn.value.func, ast.Name)
+                and fn.value.func.id == "globals"):
+            # globals()[name](..): any module-level function of this module with a matching arity
+            n = len(call.args)
+            return [g for g in f.module.functions.values() if len(g.params) == n]
         return []
 
     def _from_resolved(self, r):
